@@ -97,6 +97,15 @@ def main():
     write("C07", "probe-F11", [variant(file(msg("E", fld("a", 1, "string", oneof="X"), fld("b", 2, "string", oneof="X"), fld("c", 3, "int32")),
                                             msg("A", fld("E", 1, "message", type="E", embed=True, nullable=False), fld("S", 2, "string"))),
                                        config(["A"]))], INNER)
+    # F10: a duration held by value (casttype) as a oneof member is rendered non-null when the branch is inactive
+    write("C07", "probe-F10", [variant(file(msg("A", fld("s", 1, "string", oneof="X"), fld("d", 2, "int64", oneof="X", casttype="Duration"),
+                                                fld("t", 3, "int64", oneof="X", casttype="time.Duration"), fld("z", 4, "string"))),
+                                       config(["A"], duration_custom_type="Duration"))], INNER)
+    # F4 (known, not repaired): nullable embedded message with a list / map / message child
+    write("C03", "probe-F4", [variant(file(msg("N", fld("S", 1, "string")),
+                                           msg("Emb", fld("L", 1, "string", "repeated"), fld("M", 2, "string", "map"), fld("N", 3, "message", type="N"), fld("S", 4, "string")),
+                                           msg("A", fld("Emb", 1, "message", type="Emb", embed=True), fld("X", 2, "string"))),
+                                      config(["A"]))], INNER)
 
 if __name__ == "__main__":
     main()
